@@ -65,14 +65,27 @@ theorem merge_value_tolerant (agg : FieldType → V → V → V) (bs : List (Blo
     (mergeBlocks true agg bs).get s f t = foldAgg (agg ty) (bs.filterMap (fun b => b.get s f t)) :=
   merge_value true agg bs (fun b hb => ⟨hne b hb, Or.inl rfl⟩) s f t ty hty
 
-/-- with the regenerated flag: full strength for the CURRENT source once the flag is set -/
+/-- every block that has series is scannable by the CURRENT source: the regenerated fact says
+`nextContainer` accepts a zero-length series bucket (fix 6674420) -/
+theorem goodBlock_current (b : Block V) (hne : b.series ≠ []) :
+    GoodBlock Generated.C03.scannerToleratesEmptyBucket b :=
+  ⟨hne, Or.inl (by decide)⟩
+
+/-- **merge_value, full strength for the CURRENT source** (via the regenerated flag
+`scannerToleratesEmptyBucket`; the proof breaks if `nextContainer` loses its zero-length branch):
+any blocks that have series — the only thing `newDataScanner` demands — any field sets, slot
+ranges, series sets, zero-length entries and buckets included. -/
 theorem merge_value_current (agg : FieldType → V → V → V) (bs : List (Block V))
-    (hflag : Generated.C03.scannerToleratesEmptyBucket = true)
     (hne : ∀ b ∈ bs, b.series ≠ []) (s f t : Nat) (ty : FieldType)
     (hty : (mergeBlocks Generated.C03.scannerToleratesEmptyBucket agg bs).fieldType? f = some ty) :
     (mergeBlocks Generated.C03.scannerToleratesEmptyBucket agg bs).get s f t =
       foldAgg (agg ty) (bs.filterMap (fun b => b.get s f t)) :=
-  merge_value _ agg bs (fun b hb => ⟨hne b hb, Or.inl hflag⟩) s f t ty hty
+  merge_value _ agg bs (fun b hb => goodBlock_current b (hne b hb)) s f t ty hty
+
+/-- and it never fails on such inputs -/
+theorem merge_never_fails_current (bs : List (Block V)) (hne : ∀ b ∈ bs, b.series ≠ []) :
+    mergeFails Generated.C03.scannerToleratesEmptyBucket bs = false :=
+  mergeFails_false _ bs (fun b hb => goodBlock_current b (hne b hb))
 
 /-- the field type recorded in the merged block is the one of the first input block that has the
 field id; a field id is known to the merged block iff some input block knows it -/
@@ -376,6 +389,13 @@ def flushed (ops : List (Op V)) (m s f t : Nat) : List V :=
     | .flush es => flushContrib es m s f t
     | .compact _ => [])
 
+/-- for the CURRENT source the only requirement on flushed entries is the stable field schema
+(zero-length series entries/buckets are accepted by the scanner: regenerated flag) -/
+theorem entriesOK_current (sch : Nat → Nat → FieldType) (es : List (Nat × Block V))
+    (h : ∀ m b, (m, b) ∈ es → ∀ fid ty, b.fieldType? fid = some ty → ty = sch m fid) :
+    EntriesOK sch Generated.C03.scannerToleratesEmptyBucket es :=
+  fun m b hmb => ⟨h m b hmb, Or.inl (by decide)⟩
+
 theorem run_preserves_invariant (agg : FieldType → V → V → V) (sch : Nat → Nat → FieldType) (tol : Bool)
     (ops : List (Op V)) : ∀ (st : Family V), StateWF sch tol st → (∀ o ∈ ops, OpOK sch tol o) →
       StateWF sch tol (run agg st ops) := by
@@ -639,6 +659,13 @@ theorem tie_scanner :
     Generated.C03.rangeStartCheck = "ctx.sourceRange.Start > timeRange.Start" ∧
     Generated.C03.rangeEndCheck = "ctx.sourceRange.End < timeRange.End" := by
   refine ⟨rfl, rfl, rfl, rfl⟩
+
+/-- the down-sampling merge keeps its scratch values per call: the only package-level variables it
+reaches are the `sync.Pool` of float slices and the read-only `+Inf` fill pattern — no buffer shared
+between two merge jobs running at the same time (the model's `feed`/`emit` accumulator is local) -/
+theorem tie_no_shared_scratch :
+    Generated.C03.downSamplingPackageVars = ["float64Pool", "infFilledBlock"] := by
+  decide
 
 /-- the model's `tol` flag is read off `nextContainer`: does it have a branch for a zero-length bucket -/
 theorem tie_tolerant :
